@@ -410,6 +410,7 @@ def units():
             Unit("Mesh.find_boundary_indices", "tdgl.finite_volume.mesh:Mesh.find_boundary_indices", lambda m=None: _mc().run_boundary_indices(m), props=["C07"], timeout=300),
             Unit("make_adj_directed_tri_indices", U_ + ":make_adj_directed_tri_indices", lambda m=None: _mc().run_adjacency(m), props=["C07"], timeout=300),
             Unit("get_dual_edge_lengths", U_ + ":get_dual_edge_lengths", lambda m=None: _mc().run_dual_edge_lengths(m), props=["C07"], timeout=300),
+            Unit("compute_voronoi_polygon_areas[cell rule]", U_ + ":compute_voronoi_polygon_areas", lambda m=None: _mc().run_voronoi_cell_areas(m), props=["C07"], timeout=600),
             Unit("tdgl.geometry helpers", "tdgl.geometry:ensure_unique, close_curve",
                  lambda m=None: __import__("checks.geometry_common", fromlist=["x"]).run_geometry(m, prefixes=("C07.",)), props=["C07", "C18"], timeout=300),
             Unit("Device.make_mesh", "tdgl.device.device:Device.make_mesh / _create_dimensionless_mesh / points / edge_lengths / areas",
@@ -633,7 +634,14 @@ def replay(unit, obl):
     return dict(confirmed=False, evaluations=n, tdgl_file=tdgl.__file__)
 
 
+VU_ = ["compute_voronoi_polygon_areas[cell rule]"]
 MUTANTS = [
+    dict(name="cell areas: midpoints of ALL boundary edges", units=VU_, edits=[(U_, "        midpoints = sites[connected_boundary_edges].mean(axis=1)", "        midpoints = sites[boundary_edges].mean(axis=1)")]),
+    dict(name="cell areas: concave triangle added instead of subtracted", units=VU_, edits=[(U_, "            areas[site] -= triangle_area", "            areas[site] += triangle_area")]),
+    dict(name="cell areas: site inserted before the first midpoint", units=VU_, edits=[(U_, "            coords.insert(indices[1], sites[site])", "            coords.insert(indices[0], sites[site])")]),
+    dict(name="cell areas: non-convex interior cell accepted", units=VU_, edits=[(U_, "            if not is_convex:\n                # All interior Voronoi cells must be convex.\n                raise ValueError(warning_str.format(site=site))", "            if False:\n                raise ValueError(warning_str.format(site=site))")]),
+    dict(name="cell areas: boundary cell without its site", units=VU_, edits=[(U_, "            coords.append(sites[site])\n        poly = np.array(coords)", "            pass\n        poly = np.array(coords)")]),
+    dict(name="cell areas: edges touching the site instead of boundary edges", units=VU_, edits=[(U_, "        connected_boundary_edges = boundary_edges[(boundary_edges == site).any(axis=1)]", "        connected_boundary_edges = edges[(edges == site).any(axis=1)]")]),
     dict(name="translate shifts the live site array of the shared mesh", units=["Device.translate[mesh]"], edits=[
         (DV_, "            points = device.points\n            points += np.array([[dx, dy]])\n            device._create_dimensionless_mesh(points, device.triangles)",
          "            sites = device.mesh.sites\n            sites += np.array([[dx, dy]]) / device.coherence_length.magnitude\n            device.mesh = Mesh.from_triangulation(sites, device.triangles)")]),
